@@ -180,6 +180,11 @@ def derefAll : GoVal → GoVal
   | .ptr v => derefAll v
   | g => g
 
+/-- the element is written as a NIL encoding by Marshal: an untyped nil, also behind pointers (`*interface{}` holding
+    nil marshals like the nil it points to, C12_cex_ptr_nil_v2), or a value of `marshalsNil` — under protocol ≤ 2,
+    which has no null element, marshalList / marshalMap write a zero-length element for it (KF-C12-8) -/
+def nullish (v : GoVal) : Bool := (derefAll v).isNil || marshalsNil (derefAll v)
+
 mutual
 /-- the exact inputs excluded from the conformance theorem -/
 def excluded (p : Nat) (t : CqlTy) : GoVal → Bool
@@ -212,12 +217,12 @@ def excluded (p : Nat) (t : CqlTy) : GoVal → Bool
 /-- collection elements: an element that marshals to nil is written as length 0 under protocol ≤ 2 -/
 def excludedElems (p : Nat) (et : CqlTy) : List GoVal → Bool
   | [] => false
-  | v :: vs => excluded p et v || (p ≤ 2 && (v == .nil || marshalsNil (derefAll v))) || excludedElems p et vs
+  | v :: vs => excluded p et v || (p ≤ 2 && nullish v) || excludedElems p et vs
 
 def excludedPairs (p : Nat) (kt vt : CqlTy) : List (GoVal × GoVal) → Bool
   | [] => false
   | (k, v) :: r => excluded p kt k || excluded p vt v
-      || (p ≤ 2 && (k == .nil || marshalsNil (derefAll k) || v == .nil || marshalsNil (derefAll v)))
+      || (p ≤ 2 && (nullish k || nullish v))
       || excludedPairs p kt vt r
 
 /-- tuple fields: only what is excluded inside a field (a null field is written as −1 by every source shape) -/
